@@ -128,6 +128,19 @@ def hand_cases():
                     "stage A4(\n    in  int a,\n    in  int b,\n    in  int c,\n    out int y,\n    src py \"a\",\n)\n\npipeline TOP(\n    out map<int> ys,\n)\n{\n"
                     "    map call A4(\n        a = split {\"p\": 1, \"q\": 2, \"r\": 3, \"s\": 4},\n        b = split {\"t\": 1, \"u\": 2, \"v\": 3, \"w\": 4},\n"
                     "        c = split {\"x\": 1, \"y\": 2, \"z\": 3, \"p\": 4},\n    )\n\n    return (\n        ys = A4.y,\n    )\n}\n\ncall TOP(\n)\n"))
+    # the empty string among the keys one split map has and the other lacks
+    out.append(prog("errors_mapkeys_empty",
+                    "stage A2(\n    in  int a,\n    in  int b,\n    out int y,\n    src py \"a\",\n)\n\npipeline TOP(\n    out map<int> ys,\n)\n{\n"
+                    "    map call A2(\n        a = split {\"\": 1, \"b\": 2, \"d\": 3, \"e\": 4},\n        b = split {\"w\": 1, \"x\": 2, \"y\": 3, \"z\": 4},\n"
+                    "    )\n\n    return (\n        ys = A2.y,\n    )\n}\n\ncall TOP(\n)\n"))
+    # strings the parser interns (stage code, output file names, resource `special`), first with a
+    # literal backslash spelled \\\\ then - in the next source, for a parser that has kept the first -
+    # with the escape that the first one's text spells
+    for k, (s1, s2) in enumerate((("bin/x \\\\u00b7", "bin/x \\u00b7"), ("a\\\\tb", "a\\tb"), ("q\\\\\"", "q\\\""))):
+        for j, lit in enumerate((s1, s2)):
+            out.append(prog("intern%d%s" % (k, "ab"[j]),
+                            "stage S(\n    in  int x,\n    out file f \"help\" \"%s\",\n    src comp \"%s\",\n) using (\n    special = \"%s\",\n)\n\ncall S(\n    x = 1,\n)\n" % (
+                                lit.replace("/", "_").replace(" ", "_"), lit, lit)))
     # references inside a map / struct literal feeding retained files
     out.append(prog("retained_literal",
                     "stage F(\n    in  int x,\n    out file f,\n    src py \"f\",\n)\n\nstage U(\n    in  map<file> fs,\n    out int n,\n    src py \"u\",\n)\n\n"
